@@ -224,10 +224,12 @@ func checkC14(c ActCase) *Failure {
 				want = math.Max(0, xv) + m*math.Min(0, xv)
 			case "sigmoid":
 				want = 1 / (1 + math.Exp(-xv))
-				tol = 1e-12 * want
+				// relative, with an absolute floor in the denormal range: for x near -745 the
+				// exact value (2.5e-324) rounds to 0 or to the smallest denormal, both are right
+				tol = 1e-12*want + 1e-300
 			case "tanh":
 				want = math.Tanh(xv)
-				tol = 1e-12 * math.Abs(want)
+				tol = 1e-12*math.Abs(want) + 1e-300
 			}
 			if math.IsNaN(yv[k]) || math.Abs(yv[k]-want) > tol {
 				return failf("%s(%v) = %v, defined value %v (m=%v)", c.Kind, xv, yv[k], want, m)
